@@ -29,8 +29,10 @@ def decide(ck, arts, k):
     if not r.ok:
         raise vp.Infra("GrammarEq did not complete:\n" + r.out[-3000:])
     ck.coverage["traces_validated_against_impl"] += sum(1 for a in arts.values() if a["ok"])
-    known = next((f for f in ck.findings if f["id"] == "NAME-CAPTURE"), None)
-    known_inputs = {(i["text"], i["diff"]) for i in known["inputs"]} if known else set()
+    drift = r.printed("DRIFT")
+    ck.coverage["model_drift"] = len(drift)       # the symbol-table model no longer predicts the production set: informational
+    if drift:
+        ck.notes.append("SymTab.tla does not reproduce the production set of %d specification(s), e.g. %s" % (len(drift), drift[0]["id"]))
     out = []
     for d in r.printed("LANGDIFF"):
         a = arts[d["id"]]
@@ -39,7 +41,9 @@ def decide(ck, arts, k):
         what = "spec %r: rule %s loses %s and gains %s" % (a["text"].replace("\n", " "), first["rule"],
                                                        [" ".join(x) for x in first["lost"][:3]], [" ".join(x) for x in first["added"][:3]])
         out.append((a, sig))
-        if (a["text"], sig) in known_inputs and ck.known("NAME-CAPTURE", what):
+        # NAME-CAPTURE is matched by shape: the implementation-shaped model of the symbol table (SymTab.tla) reproduces the
+        # real production set exactly AND exhibits a collision between a synthesised name and a user/other synthesised name
+        if d.get("explained") and ck.known("NAME-CAPTURE", what):
             continue
         ck.violation(what, {"property": "C01", "kind": "language", "text": a["text"], "diff": sig, "decls": a["decls"]})
     return r, out
